@@ -9,6 +9,7 @@ pub mod datum;
 pub mod dynde;
 pub mod generate;
 pub mod jsontree;
+pub mod schemajson;
 pub mod term;
 pub mod validate;
 
